@@ -32,6 +32,7 @@ func fatal(err error) {
 }
 
 var runners = map[string]func(Config){
+	"C02": runC02,
 	"C04": runC04,
 }
 
